@@ -293,6 +293,33 @@ class _Unstable(Exception):
     pass
 
 
+_MUTATORS = {"add", "append", "extend", "update", "pop", "popitem", "clear", "setdefault", "insert", "remove", "discard", "sort", "reverse", "write", "writelines", "seek",
+             "truncate", "close", "send", "throw", "__setitem__", "__delitem__"}
+_mut_cache: dict = {}
+
+
+_CONTAINER_CTORS = {"set", "list", "dict", "bytearray", "deque", "defaultdict", "OrderedDict"}
+
+
+def call_text(c):
+    return norm(c.func) if isinstance(c, ast.Call) else ""
+
+
+def mutated_names(fn):
+    """Local names whose object is modified in place somewhere in fn (`x.append(..)`, `x[k] = ..`, `del x[k]`, `x.attr = ..`):
+    the expression that created the object does not describe its later state, so such names are never replaced by their definition."""
+    k = id(fn)
+    if k not in _mut_cache:
+        out = set()
+        for n in ast.walk(fn):
+            if isinstance(n, ast.Call) and isinstance(n.func, ast.Attribute) and n.func.attr in _MUTATORS and isinstance(n.func.value, ast.Name):
+                out.add(n.func.value.id)
+            if isinstance(n, (ast.Subscript, ast.Attribute)) and isinstance(n.ctx, (ast.Store, ast.Del)) and isinstance(n.value, ast.Name):
+                out.add(n.value.id)
+        _mut_cache[k] = (fn, out)
+    return _mut_cache[k][1]
+
+
 def _pos(n):
     return (getattr(n, "lineno", 0), getattr(n, "col_offset", 0))
 
@@ -342,8 +369,11 @@ def expand(fn, e, depth: int = 6, keep=(), use=None, allow_calls=False):
             return clone(n)
         if isinstance(n, ast.Name) and isinstance(n.ctx, ast.Load):
             site = n if hasattr(n, "_p") else use
-            if n.id not in keep and depth > 0:
+            if n.id not in keep and depth > 0 and (allow_calls or n.id not in mutated_names(fn)):
                 d = definition(fn, n.id, site, allow_calls, keep)
+                if d is not None and d is not ENTRY and allow_calls and n.id in mutated_names(fn) and isinstance(d, (ast.Call, ast.List, ast.Set, ast.Dict, ast.ListComp, ast.SetComp, ast.DictComp)) \
+                        and not (isinstance(d, ast.Call) and isinstance(d.func, ast.Attribute)) and (call_text(d) in _CONTAINER_CTORS or not isinstance(d, ast.Call)):
+                    d = None            # a container built empty and filled later: its constructor says nothing about its content
                 if d is ENTRY:
                     # a parameter read before any rebinding; when it is rebound later the entry value gets its own symbol
                     b_, params_ = _bindings(fn)
